@@ -47,7 +47,8 @@ PROBES = ["twin_frame_compared", "twin_raw_compared", "history_compared", "reuse
           "copy_of_load_fil", "copy_of_sizes", "record_default_header", "record_shared_header", "aborted_recording_in_history",
           "array_then_single", "from_data_seeded_estimate", "copy_of_load_h5", "copy_of_derived", "hashseed_program_compared", "near_twin_prefix"]
 
-SEAM_KEYS = {"clock": ["clock_origin", "clock_jitter_seed"], "entropy": ["entropy_salt"], "listing": ["listing"], "scratch": ["scratch"]}
+SEAM_KEYS = {"clock": ["clock_origin", "clock_jitter_seed"], "entropy": ["entropy_salt"], "listing": ["listing"], "scratch": ["scratch"],
+             "cwd": ["chdir"]}
 
 
 # ---------------------------------------------------------------------------
@@ -221,7 +222,7 @@ def generate(rng, tier):
                     "entropy_salt": rng.randrange(1 << 20), "scratch": "c12a", "listing": "sorted"},
           "seams_b": {"clock_origin": 1.2e9 + rng.randrange(10 ** 8), "clock_jitter_seed": rng.randrange(1 << 20),
                       "entropy_salt": rng.randrange(1 << 20), "scratch": "zz-other-%d" % rng.randrange(1000),
-                      "listing": rng.choice(["reverse", rng.randrange(1, 1 << 16)])}}
+                      "listing": rng.choice(["reverse", rng.randrange(1, 1 << 16)]), "chdir": True}}
     if mode == "twin_frame":
         sc["ops"] = gen_frame_program(rng)
     elif mode == "twin_raw":
@@ -490,7 +491,7 @@ def execute(sc, ctx):
             for name, keys in SEAM_KEYS.items():
                 s = dict(sc["seams"])
                 for k in keys:
-                    s[k] = sc["seams_b"][k]
+                    s[k] = sc["seams_b"].get(k)
                 c = _run(sc["ops"], s, ctx)
                 if _first_diff(a["events"], c["events"]) is not None:
                     blamed.append(name)
